@@ -284,6 +284,7 @@ func checkC18(c *Ctx, r *Report) {
 			o.Bad("the body is translated to %s but Content-Type announces %s", pathOf(used), pathOf(label))
 		}
 	}
+	c18Extra(c, r)
 	r.NotCov = append(r.NotCov, "equality of input and stored text for all strings", "what the charset translator does with unrepresentable characters", "termination of the wrap loop")
 }
 
@@ -297,11 +298,47 @@ func sizeRule(c *Ctx, r *Report, rule string) {
 	}
 	o := r.Add(rule, fnName(fn), "Body header = len(stored body)", c.pos(fn.Pos()))
 	var stored ssa.Value
+	var stores []*ssa.Store
 	eachInstr(fn, func(_ *ssa.BasicBlock, _ int, in ssa.Instruction) {
 		if st, ok := in.(*ssa.Store); ok && strings.HasSuffix(pathOf(st.Addr), ".body") {
 			stored = st.Val
+			stores = append(stores, st)
 		}
 	})
+	// every store of a body is followed, on every path to a return, by the update of the Body header
+	// with the length of that very value (an early return that only stores leaves a stale size)
+	for _, st := range stores {
+		var sets []ssa.CallInstruction
+		for _, ci := range callsTo(fn, false, "fbb.Header.Set") {
+			if k, _ := constString(ci.Common().Args[1]); k != "Body" {
+				continue
+			}
+			v := st.Val
+			if dependsOn(ci.Common().Args[2], func(x ssa.Value) bool {
+				call, ok := x.(*ssa.Call)
+				return ok && callName(&call.Call) == "builtin.len" && call.Call.Args[0] == v
+			}) {
+				sets = append(sets, ci)
+			}
+		}
+		okAll := true
+		for _, ret := range returnsOf(fn) {
+			if !instrReaches(st, ret) {
+				continue
+			}
+			dom := false
+			for _, s := range sets {
+				if instrDominates(s, ret) {
+					dom = true
+				}
+			}
+			if !dom {
+				okAll = false
+			}
+		}
+		r.Check(rule, fnName(fn), "store to Message.body at "+c.exprAt(fn, st.Pos()), c.pos(st.Pos()), okAll,
+			"every return after this store follows Header.Set(Body, len(value stored))", "the body is replaced here but a return can be reached without updating the Body header to the new length (e.g. an early return for an empty text after a longer one): the header keeps the old size and the serialised message cannot be parsed")
+	}
 	good := false
 	for _, ci := range callsTo(fn, false, "fbb.Header.Set") {
 		if k, _ := constString(ci.Common().Args[1]); k != "Body" {
@@ -699,6 +736,7 @@ func checkC09(c *Ctx, r *Report) {
 			o.Bad("Message.Write no longer refuses a Date header it cannot parse itself")
 		}
 	}
+	c09Extra(c, r)
 	r.NotCov = append(r.NotCov, "round-trip equality over all messages", "whitespace trimming of header values", "address normalisation", "word-decoding of arbitrary subjects/file names")
 }
 
@@ -736,5 +774,209 @@ func sectionTermRule(c *Ctx, r *Report, rule string) {
 		o.OK("every nil-error return is dominated by the read of the line that terminates the section")
 	} else {
 		o.Bad("readSection can return successfully without consuming the section terminator (e.g. when nothing is buffered yet, or for an empty section): the CRLF becomes the start of the next attachment, which is then corrupted or refused")
+	}
+}
+
+// passesOnEveryIteration: every path from the loop header's body successor back to the header
+// goes through a block for which pred holds.
+func passesOnEveryIteration(l loop, pred func(*ssa.BasicBlock) bool) bool {
+	seen := map[*ssa.BasicBlock]bool{}
+	var stack []*ssa.BasicBlock
+	for _, s := range l.header.Succs {
+		if l.body[s] && s != l.header {
+			stack = append(stack, s)
+		}
+	}
+	for len(stack) > 0 {
+		b := stack[len(stack)-1]
+		stack = stack[:len(stack)-1]
+		if seen[b] || pred(b) {
+			continue
+		}
+		seen[b] = true
+		for _, s := range b.Succs {
+			if s == l.header {
+				return false
+			}
+			if l.body[s] {
+				stack = append(stack, s)
+			}
+		}
+	}
+	return true
+}
+
+// c09Extra: rules added after seeded changes.
+func c09Extra(c *Ctx, r *Report) {
+	const pkg = "fbb"
+	// ---- every attachment section is written with its terminator, whatever its size
+	r.Rule("C09-sections", 1, "every attachment is followed by its terminator")
+	if fn := c.Func(pkg, "(*Message).Write"); fn == nil {
+		r.Fail("C09-sections", "anchor Message.Write not found")
+	} else {
+		n := 0
+		for _, l := range naturalLoops(fn) {
+			writesData := false
+			for b := range l.body {
+				for _, in := range b.Instrs {
+					if ci, ok := in.(ssa.CallInstruction); ok && callName(ci.Common()) == "bufio.Writer.Write" {
+						writesData = true
+					}
+				}
+			}
+			if !writesData {
+				continue
+			}
+			n++
+			term := func(b *ssa.BasicBlock) bool {
+				for _, in := range b.Instrs {
+					if ci, ok := in.(ssa.CallInstruction); ok && callName(ci.Common()) == "bufio.Writer.WriteString" {
+						if s, _ := constString(ci.Common().Args[1]); s == "\r\n" {
+							return true
+						}
+					}
+				}
+				return false
+			}
+			data := func(b *ssa.BasicBlock) bool {
+				for _, in := range b.Instrs {
+					if ci, ok := in.(ssa.CallInstruction); ok && callName(ci.Common()) == "bufio.Writer.Write" {
+						return true
+					}
+				}
+				return false
+			}
+			r.Check("C09-sections", fnName(fn), "attachment loop", c.pos(l.header.Instrs[0].Pos()), passesOnEveryIteration(l, term) && passesOnEveryIteration(l, data),
+				"every iteration writes the data and the CRLF that ends the section", "an iteration of the attachment loop can skip the data or the terminating CRLF (e.g. for an empty attachment): the File header is still there, so the reader takes the next attachment's first bytes for the terminator - data lost or silently shifted")
+		}
+		if n == 0 {
+			r.Add("C09-sections", fnName(fn), "attachment loop", c.pos(fn.Pos())).Bad("no loop writing attachment data found in Message.Write (unresolved)")
+		}
+	}
+	// ---- the header accessors agree on the spelling of keys
+	r.Rule("C09-keys", 4, "Header accessors canonicalise keys the same way")
+	for _, m := range []string{"Add", "Set", "Get", "Del"} {
+		fn := c.Func(pkg, "(Header)."+m)
+		if fn == nil {
+			r.Fail("C09-keys", "anchor Header.%s not found", m)
+			continue
+		}
+		var key *ssa.Parameter
+		for _, p := range fn.Params[1:] {
+			if isStringLike(p.Type()) && key == nil {
+				key = p
+			}
+		}
+		raw := ""
+		canonical := false
+		eachInstr(fn, func(_ *ssa.BasicBlock, _ int, in ssa.Instruction) {
+			switch x := in.(type) {
+			case *ssa.MapUpdate:
+				if key != nil && sameSlotValue(x.Key, key) {
+					raw = c.pos(x.Pos())
+				}
+			case *ssa.Lookup:
+				if key != nil && sameSlotValue(x.Index, key) {
+					raw = c.pos(x.Pos())
+				}
+			case ssa.CallInstruction:
+				n := callName(x.Common())
+				if strings.HasPrefix(n, "net/textproto.MIMEHeader.") || n == "net/textproto.CanonicalMIMEHeaderKey" || n == "net/http.CanonicalHeaderKey" {
+					canonical = true
+				}
+				if n == "builtin.delete" && key != nil && sameSlotValue(x.Common().Args[1], key) {
+					raw = c.pos(x.Pos())
+				}
+			}
+		})
+		r.Check("C09-keys", fnName(fn), "key canonicalised", c.pos(fn.Pos()), raw == "" && canonical,
+			"the key goes through textproto's canonical form", "Header."+m+" uses the key as given (at "+raw+") while the other accessors and the parser use the canonical MIME form: a header added as 'X-relay' is written with that spelling, parsed back as 'X-Relay', and re-serialising changes spelling and line order")
+	}
+}
+
+// c18Extra: rules added after seeded changes.
+func c18Extra(c *Ctx, r *Report) {
+	const pkg = "fbb"
+	// ---- lines are split at every LF, whatever the text's first line break looks like
+	r.Rule("C18-split", 1, "the text is split at every LF")
+	if fn := c.Func(pkg, "StringToBody"); fn == nil {
+		r.Fail("C18-split", "anchor StringToBody not found")
+	} else {
+		n := 0
+		bad := ""
+		for _, ci := range allCalls(fn) {
+			name := callName(ci.Common())
+			sepIdx := -1
+			switch name {
+			case "strings.Cut", "strings.Split", "strings.SplitN", "strings.SplitAfter", "strings.Index", "strings.IndexByte", "strings.IndexAny",
+				"bytes.Cut", "bytes.Split", "bytes.SplitN", "bytes.Index", "bytes.IndexByte", "bytes.IndexAny":
+				sepIdx = 1
+			case "bufio.Scanner.Split":
+				n++
+				if f, ok := ci.Common().Args[1].(*ssa.Function); !ok || f.String() != "bufio.ScanLines" {
+					bad = "the scanner is given a split function other than bufio.ScanLines at " + c.pos(ci.Pos())
+				}
+				continue
+			case "bufio.NewScanner":
+				n++ // default split function: ScanLines (every LF, optional CR dropped)
+				continue
+			}
+			if sepIdx < 0 {
+				continue
+			}
+			n++
+			sep := ci.Common().Args[sepIdx]
+			if s, ok := constString(sep); ok && s == "\n" {
+				continue
+			}
+			if k, ok := constInt(sep); ok && k == 10 {
+				continue
+			}
+			if bs, ok := sep.(*ssa.Convert); ok {
+				if s, ok := constString(bs.X); ok && s == "\n" {
+					continue
+				}
+			}
+			bad = "the separator of " + name + " at " + c.pos(ci.Pos()) + " is not the constant LF"
+		}
+		switch {
+		case n == 0:
+			r.Add("C18-split", fnName(fn), "line splitter", c.pos(fn.Pos())).Bad("no recognised line splitter in StringToBody (unresolved)")
+		case bad != "":
+			r.Add("C18-split", fnName(fn), "line splitter", c.pos(fn.Pos())).Bad("%s: with a separator chosen from the text (e.g. CRLF because the first break is CRLF) a later bare LF stays inside a line and is stored unconverted", bad)
+		default:
+			r.Add("C18-split", fnName(fn), "line splitter", c.pos(fn.Pos())).OK("%d splitter call(s), all splitting at every LF", n)
+		}
+	}
+	// ---- Body() decodes with the declared charset, always
+	r.Rule("C18-decode", 1, "stored bytes are decoded with the declared charset")
+	if fn := c.Func(pkg, "BodyFromBytes"); fn == nil {
+		r.Fail("C18-decode", "anchor BodyFromBytes not found")
+	} else {
+		for _, ret := range returnsOf(fn) {
+			if isErrorExit(ret) {
+				continue
+			}
+			if len(ret.Results) == 2 && !isNilConst(resOf(ret, 1)) {
+				// returns the translator's own error value: fine either way, the text is the translator's
+			}
+			translated := dependsOn(resOf(ret, 0), func(x ssa.Value) bool {
+				call, ok := x.(*ssa.Call)
+				return ok && call.Call.IsInvoke() && call.Call.Method.Name() == "Translate"
+			})
+			onErr := false
+			for _, cd := range condsAt(ret.Block()) {
+				if b, ok := cd.V.(*ssa.BinOp); ok && (b.Op == token.NEQ || b.Op == token.EQL) && isNilConst(b.Y) && b.X.Type().String() == "error" {
+					if (b.Op == token.NEQ) == cd.Truth {
+						onErr = true
+					}
+				}
+			}
+			if onErr {
+				continue
+			}
+			r.Check("C18-decode", fnName(fn), "returned text", c.pos(ret.Pos()), translated,
+				"the text returned is the translator's output for the declared charset", "a text can be returned that did not go through the translator of the declared charset (e.g. a 'looks like UTF-8' shortcut): Latin-1 text such as \"12Â°C\" comes back as \"12°C\"")
+		}
 	}
 }
